@@ -194,6 +194,7 @@ pub fn poll_task(tb: &mut TaskBox, ctx: &mut ThreadCtx, idx: usize, kind: PollKi
         s.ready = ready;
         s.item = kind == PollKind::PollNextItem || kind == PollKind::PollCloseErr;
     }
+    let outer_cell = ctx.cur_cell.take();
     ctx.cur_cell = Some(tb.cell.clone());
     let waker = noop_waker();
     let mut cx = Context::from_waker(&waker);
@@ -211,7 +212,7 @@ pub fn poll_task(tb: &mut TaskBox, ctx: &mut ThreadCtx, idx: usize, kind: PollKi
         _ => "mismatch".to_string(),
     };
     tb.cell.get().ctx = std::ptr::null_mut();
-    ctx.cur_cell = None;
+    ctx.cur_cell = outer_cell;
     Ret::Value(out)
 }
 
